@@ -106,6 +106,45 @@ let buf_line spec =
        | Panic -> "PANIC")
   in go empty_buffer 0 false ops
 
+(* ---- Python layer (Model.PyLayer) *)
+let py_exc_of = function
+  | "SnmpError" -> ESnmpError | "SnmpDecodeError" -> EDecode | "SnmpEncodeError" -> EEncode | "SnmpAuthError" -> EAuth
+  | "NoSuchInstance" -> ENoSuchInstance | "ValueError" -> EValue | "TimeoutError" -> ETimeout | "BlockingIOError" -> EBlockingIO
+  | "OSError" -> EOSError | "NotImplementedError" -> ENotImplemented | "RuntimeError" -> ERuntime
+  | "StopAsyncIteration" -> EStopAsyncIteration | "StopIteration" -> EStopIteration | _ -> EException
+let py_tok_of t =
+  match t.[0] with
+  | 'r' -> TRet (SvObj (z_of_string (String.sub t 1 (String.length t - 1))))
+  | 'l' -> let body = String.sub t 1 (String.length t - 1) in
+    TRet (SvList (if body = "" then [] else List.map (fun x -> if x = "n" then None else Some (z_of_string x)) (String.split_on_char '.' body)))
+  | 'x' -> TRaise (py_exc_of (String.sub t 1 (String.length t - 1)))
+  | _ -> TTimeout
+let py_toks script = if script = "-" then [] else List.map py_tok_of (String.split_on_char ',' script)
+let py_cfg md pol ver ab mr =
+  { pc_mode = (if md = "s" then Sync else Async); pc_policer = (pol = "1");
+    pc_version = (match ver with "v1" -> V1 | "v2c" -> V2c | _ -> V3); pc_allow_bulk = (ab = "1"); pc_max_rep = z_of_string mr }
+let py_api apis =
+  match String.split_on_char ':' apis with
+  | ["get"; o] -> ApiGet (bytes_of_hex o)
+  | ["getmany"; os] -> ApiGetMany (if os = "-" then [] else List.map bytes_of_hex (String.split_on_char ',' os))
+  | ["getnext"; o] -> ApiGetNext (bytes_of_hex o)
+  | ["getbulk"; o; r] -> ApiGetBulk (bytes_of_hex o, (if r = "-" then None else Some (z_of_string r)))
+  | ["fetch"; o] -> ApiFetch (bytes_of_hex o)
+  | _ -> failwith "bad api"
+let py_mname = function
+  | MGet -> "get" | MGetMany -> "get_many" | MGetNext -> "get_next" | MGetBulk -> "get_bulk"
+  | MSendGet -> "send_get" | MRecvGet -> "recv_get" | MSendGetMany -> "send_get_many" | MRecvGetMany -> "recv_get_many"
+  | MSendGetNext -> "send_get_next" | MRecvGetNext -> "recv_get_next" | MSendGetBulk -> "send_get_bulk" | MRecvGetBulk -> "recv_get_bulk"
+let py_aname = function ANone -> "-" | AOid t -> "o" ^ hx t | AOids ts -> "O" ^ String.concat "," (List.map hx ts) | ACtx -> "c"
+let py_ev = function
+  | EvPolice -> "P" | EvSock (m, a) -> "S:" ^ py_mname m ^ ":" ^ py_aname a
+  | EvIter (o, m) -> "I:" ^ hx o ^ ":" ^ (match m with None -> "-" | Some z -> sz z)
+let py_out = function
+  | PRet (SvObj z) -> "ret:" ^ sz z
+  | PRet (SvList l) -> "retlist:" ^ String.concat "." (List.map (function None -> "n" | Some z -> sz z) l)
+  | PRaise e -> "exc:" ^ exc_name e | PCap -> "cap" | PBadScript -> "bad"
+let py_evs = function [] -> "-" | l -> String.concat " " (List.map py_ev l)
+
 let handle = function
   | ["hdr"; h] ->
     res (parse_header (bytes_of_hex h)) (fun (rest, hd) ->
@@ -214,44 +253,21 @@ let handle = function
        ^ " end=" ^ (match w.ended with Stopped -> "STOP" | Raised e -> exc_name e | CrashedW -> "PANIC" | OutOfFuel -> "CAP"))
   | ["pyapi"; md; pol; ver; ab; mr; fuel; apis; script] ->
     (* the Python layer (Model.PyLayer.run_api) on a script of socket results *)
-    let exc_of = function
-      | "SnmpError" -> ESnmpError | "SnmpDecodeError" -> EDecode | "SnmpEncodeError" -> EEncode | "SnmpAuthError" -> EAuth
-      | "NoSuchInstance" -> ENoSuchInstance | "ValueError" -> EValue | "TimeoutError" -> ETimeout | "BlockingIOError" -> EBlockingIO
-      | "OSError" -> EOSError | "NotImplementedError" -> ENotImplemented | "RuntimeError" -> ERuntime
-      | "StopAsyncIteration" -> EStopAsyncIteration | "StopIteration" -> EStopIteration | _ -> EException in
-    let tok_of t =
-      match t.[0] with
-      | 'r' -> TRet (SvObj (z_of_string (String.sub t 1 (String.length t - 1))))
-      | 'l' -> let body = String.sub t 1 (String.length t - 1) in
-        TRet (SvList (if body = "" then [] else List.map (fun x -> if x = "n" then None else Some (z_of_string x)) (String.split_on_char '.' body)))
-      | 'x' -> TRaise (exc_of (String.sub t 1 (String.length t - 1)))
-      | _ -> TTimeout in
-    let toks = if script = "-" then [] else List.map tok_of (String.split_on_char ',' script) in
-    let cfg = { pc_mode = (if md = "s" then Sync else Async); pc_policer = (pol = "1");
-                pc_version = (match ver with "v1" -> V1 | "v2c" -> V2c | _ -> V3); pc_allow_bulk = (ab = "1"); pc_max_rep = z_of_string mr } in
-    let api = (match String.split_on_char ':' apis with
-        | ["get"; o] -> ApiGet (bytes_of_hex o)
-        | ["getmany"; os] -> ApiGetMany (if os = "-" then [] else List.map bytes_of_hex (String.split_on_char ',' os))
-        | ["getnext"; o] -> ApiGetNext (bytes_of_hex o)
-        | ["getbulk"; o; r] -> ApiGetBulk (bytes_of_hex o, (if r = "-" then None else Some (z_of_string r)))
-        | ["fetch"; o] -> ApiFetch (bytes_of_hex o)
-        | _ -> failwith "bad api") in
-    let r = run_api cfg (nat_of_int (int_of_string fuel)) api toks in
-    let mname = function
-      | MGet -> "get" | MGetMany -> "get_many" | MGetNext -> "get_next" | MGetBulk -> "get_bulk"
-      | MSendGet -> "send_get" | MRecvGet -> "recv_get" | MSendGetMany -> "send_get_many" | MRecvGetMany -> "recv_get_many"
-      | MSendGetNext -> "send_get_next" | MRecvGetNext -> "recv_get_next" | MSendGetBulk -> "send_get_bulk" | MRecvGetBulk -> "recv_get_bulk" in
-    let aname = function ANone -> "-" | AOid t -> "o" ^ hx t | AOids ts -> "O" ^ String.concat "," (List.map hx ts) | ACtx -> "c" in
-    let ename' = function
-      | EvPolice -> "P" | EvSock (m, a) -> "S:" ^ mname m ^ ":" ^ aname a
-      | EvIter (o, m) -> "I:" ^ hx o ^ ":" ^ (match m with None -> "-" | Some z -> sz z) in
-    "EV " ^ (match r.r_events with [] -> "-" | l -> String.concat " " (List.map ename' l))
+    let r = run_api (py_cfg md pol ver ab mr) (nat_of_int (int_of_string fuel)) (py_api apis) (py_toks script) in
+    "EV " ^ py_evs r.r_events
     ^ " | ITEMS " ^ (match r.r_items with [] -> "-" | l -> String.concat "," (List.map sz l))
-    ^ " | END " ^ (match r.r_end with
-        | PRet (SvObj z) -> "ret:" ^ sz z
-        | PRet (SvList l) -> "retlist:" ^ String.concat "." (List.map (function None -> "n" | Some z -> sz z) l)
-        | PRaise e -> "exc:" ^ exc_name e | PCap -> "cap" | PBadScript -> "bad")
+    ^ " | END " ^ py_out r.r_end
     ^ " | REST " ^ string_of_int (List.length r.r_rest)
+  | ["pyprog"; md; pol; ver; ab; mr; prog; script] ->
+    (* a program of single calls and next() calls on several iterators of one session: c=<api> ; n=<api> ; x=<iterator number> *)
+    let cmd_of c =
+      match c.[0] with
+      | 'c' -> CCall (py_api (String.sub c 2 (String.length c - 2)))
+      | 'n' -> CNew (py_api (String.sub c 2 (String.length c - 2)))
+      | _ -> CNext (nat_of_int (int_of_string (String.sub c 2 (String.length c - 2)))) in
+    let p = List.map cmd_of (String.split_on_char ';' prog) in
+    let ((evs, outs), rest) = run_prog (py_cfg md pol ver ab mr) p [] (py_toks script) [] [] in
+    "EV " ^ py_evs evs ^ " | OUTS " ^ String.concat "," (List.map py_out outs) ^ " | REST " ^ string_of_int (List.length rest)
   | "recvloop" :: ver :: comm :: rid :: ds ->
     (* the community receive loop on the datagrams that arrive, in order *)
     let v = if ver = "1" then sNMP_V1 else sNMP_V2C in
